@@ -8,11 +8,17 @@ sys.path.insert(0, os.path.join(os.path.dirname(os.path.abspath(__file__)), ".."
 import vlib
 
 SPEC = os.path.join(vlib.VERIF, "spec", "win")
-MODULE = {"tumbling": "Tumbling", "sliding": "Sliding"}
+MODULE = {"tumbling": "Tumbling", "sliding": "Sliding", "session": "Session"}
+MONITOR = {"tumbling": "TraceWin", "sliding": "TraceWin", "session": "TraceSession"}
 UNITS = [1000, 3500, 700, 13000, 250]   # ms per tick: also sizes that are not divisors of a minute
 
 
-def consts(kind, c, emit):
+def consts(kind, c, emit, prop=None):
+    if kind == "session":
+        kd = vlib.known_devs(prop) if prop else {}
+        return "T = %d MOO = %d AL = %d MaxTs = %d MaxEv = %d Keys = {\"a\",\"b\"} ChanCap = 100 DevMerge = %s DevStart = %s Emit = %s" % (
+            c["size"], c["moo"], c["al"], c["maxts"], c["maxev"], "TRUE" if "SessionMergeAcrossGap" in kd else "FALSE",
+            "TRUE" if "SessionStartFirstArrival" in kd else "FALSE", "TRUE" if emit else "FALSE")
     s = "Size = %d MOO = %d AL = %d MaxTs = %d MaxEv = %d ChanCap = %d Reanchor = TRUE Emit = %s" % (
         c["size"], c["moo"], c["al"], c["maxts"], c["maxev"], c.get("chancap", 100), "TRUE" if emit else "FALSE")
     if kind == "sliding":
@@ -22,7 +28,9 @@ def consts(kind, c, emit):
 
 def model_check(res, kind, c, workers=8, timeout=900):
     invs = "DeliveriesOK NoOnTimeLoss WmOK ImplOK" + (" NotBeforeS0" if kind == "sliding" else "")
-    cfg = "SPECIFICATION Spec\nCONSTANTS %s\nINVARIANTS %s\nPROPERTY WmMonotone\nVIEW View\nCHECK_DEADLOCK FALSE\n" % (consts(kind, c, False), invs)
+    cfg = "SPECIFICATION Spec\nCONSTANTS %s\nINVARIANTS %s\nPROPERTY WmMonotone\nVIEW View\nCHECK_DEADLOCK FALSE\n" % (consts(kind, c, False, res.prop), invs)
+    if kind == "session":
+        cfg = "SPECIFICATION Spec\nCONSTANTS %s\nINVARIANTS DeliveriesOK NoLoss NoSplit WmOK\nVIEW View\nCHECK_DEADLOCK FALSE\n" % consts(kind, c, False, res.prop)
     if c["al"] > 0 and kind == "tumbling" and "LateUpdateOvertakes" in vlib.known_devs(res.prop):
         cfg = cfg.replace("INVARIANTS DeliveriesOK", "INVARIANTS OneFirstFiring DeliveriesOKDev")
     r = vlib.tlc(SPEC, MODULE[kind], cfg, workers=workers, timeout=timeout)
@@ -36,7 +44,7 @@ def model_check(res, kind, c, workers=8, timeout=900):
 
 
 def generate(res, kind, c, timeout=900):
-    cfg = "SPECIFICATION Spec\nCONSTANTS %s\nINVARIANTS EmitScenario\nCHECK_DEADLOCK FALSE\n" % consts(kind, c, True)
+    cfg = "SPECIFICATION Spec\nCONSTANTS %s\nINVARIANTS EmitScenario\nCHECK_DEADLOCK FALSE\n" % consts(kind, c, True, res.prop)
     r = vlib.tlc(SPEC, MODULE[kind], cfg, workers=1, timeout=timeout)
     if not r["ok"]:
         raise vlib.Inconclusive("scenario generation failed:\n" + r["out"][-2000:])
@@ -66,6 +74,8 @@ def random_free(kind, c, rng, n):
         jitter = rng.randint(0, c["moo"] + (2 if rng.random() < 0.2 else 0))
         ts = max(0, t - jitter)
         st = {"a": "add", "id": i, "ts": ts}
+        if kind == "session":
+            st["g"] = rng.choice(["a", "b", "c"][:c.get("keys", 2)])
         if rng.random() < 0.04:
             st["fut"] = 1
         steps.append(st)
@@ -109,14 +119,18 @@ def run_family(prop, tier, plan, free_plan, assumptions):
         print("MODEL-DRIFT: %d scenarios re-run free-running (first: %s)" % (len(drift), drift[0]))
     if len(inc) > max(3, n // 50):
         raise vlib.Inconclusive("%d of %d scenarios inconclusive, e.g. %s" % (len(inc), n, inc[0]))
-    rej, _, nlines = vlib.validate(SPEC, "TraceWin", tr_path, set())
+    mon = MONITOR[plan[0][0] if plan else free_plan[0][0]]
+    rej, _, nlines = vlib.validate(SPEC, mon, tr_path, set())
     if rej:
         kd = vlib.known_devs(prop)
-        rej2, devs, _ = vlib.validate(SPEC, "TraceWin", tr_path, set(kd))
+        rej2, devs, _ = vlib.validate(SPEC, mon, tr_path, set(kd))
         still = {r[0] for r in rej2}
+        cnt = {}
         for tr, _, d in devs:
             if tr not in still and d in kd:
-                res.known[d] = res.known.get(d, 0) + 1
+                cnt.setdefault(d, set()).add(tr)
+        for d, trs in cnt.items():
+            res.known[d] = len(trs)
         seen = set()
         for tr, line, code in rej2:
             if tr in seen:
